@@ -26,10 +26,29 @@ def flags_of(line):
     return (m.group(1) == "1", m.group(2) == "1") if m else None
 
 
+V1_INC = re.compile(r"ERR (Partial|MissingPrefix|MissingNewLine|MissingProtocol|MissingSourceAddress|MissingDestinationAddress|"
+                    r"MissingSourcePort|MissingDestinationPort)(?= |$)")
+
+
+def norm_v1_inc(case, line):
+    """No property says WHICH incomplete variant an unfinished v1 line is reported with: C05 / C18 speak about the class,
+    C12 about the kinds of terminal errors, C16 / C06 about agreement between entry points (which their oracles compare
+    on the implementation itself).  So the variant of a v1 result that is flagged incomplete is not part of a projection."""
+    mode = case.split(" ")[0]
+    if (mode in ("v1b", "v1s", "v1fh", "v1fa") or (mode == "auto" and line.startswith("V1 "))) and " i1c0" in line:
+        return V1_INC.sub("ERR <incomplete>", line)
+    return line
+
+
 def acc(line):
     """`acc` projection: an accepted header with its decoded value, or just REJ"""
-    s = strip_flags(line)
-    return s if s.startswith("OK ") else ("REJ" if s.startswith("ERR") else s)
+    s = strip_flags(strip_flags(line))          # auto-detection lines carry the flags of the inner result as well
+    tag = ""
+    if s.startswith(("V1 ", "V2 ")):
+        tag, s = s[:3], s[3:]
+    if s.startswith("OK "):
+        return tag + s
+    return "REJ" if s.startswith("ERR") else tag + s
 
 
 def byte_neighbours(e, rng, limit=4000):
@@ -107,7 +126,7 @@ class C02(Prop):
 
 class C11(Prop):
     id = "C11"
-    projection_name = "items (item sequence incl. the error item, step count, fused flag, len/is_empty)"
+    projection_name = "items (item sequence incl. the error item, step count, fused flag)"
     streams = (v2gen.tlv_small, v2gen.tlv_lists, v2gen.header_tlvs)
 
     def groups(self, stream, e, meta):
@@ -115,6 +134,12 @@ class C11(Prop):
             yield ("htlv", ["htlv " + e])
         else:
             yield ("tlv", ["tlv " + e])
+
+    def project(self, case, line):
+        # C11 fixes the payload of the error item for the overrun case only ("naming the type and the declared length");
+        # the number carried by Leftovers, and TypeLengthValues::len / is_empty, are not part of its statement (XTLV has them)
+        line = re.sub(r"E:Leftovers\(\d+\)", "E:Leftovers", line)
+        return re.sub(r" len=\d+ empty=[01]", "", line)
 
     def classify(self, case, line):
         if line.startswith("REJ"):
@@ -152,6 +177,14 @@ def kv(segment):
     return dict(f.split("=", 1) for f in segment.split(" ") if "=" in f)
 
 
+class XTLV(C11):
+    """internal: the full observation of TLV iteration (incl. the number carried by Leftovers and len / is_empty)"""
+    id = "XTLV"
+
+    def project(self, case, line):
+        return line
+
+
 class C14(Prop):
     id = "C14"
     projection_name = "views (every accessor of the borrowed and of the owned header)"
@@ -159,11 +192,20 @@ class C14(Prop):
     trusted_extra = ("the clause `borrowed and owned` is trivial in the model (values are immutable); the harness "
                      "observes it on the implementation (owned == borrowed, same views, after the source buffer is overwritten and freed)",)
 
+    # accessors the property does not speak about (Display, BitOr of the control enums, TypeLengthValues::len / is_empty,
+    # Header::is_empty) are observed by the harness but are not part of this property's projection or oracle: they are
+    # compared in the internal run XV2 only
+    OUT_OF_SCOPE = ("disp", "vc", "fp", "tl", "te", "empty")
+
+    def beyond(self, b, x, length, tb, un):
+        return None
+
     def groups(self, stream, e, meta):
         yield ("views", ["views2 " + e])
 
     def project(self, case, line):
-        return line.split(" | ")[0]
+        head = line.split(" | ")[0]
+        return " ".join(f for f in head.split(" ") if f.split("=")[0].lstrip("BO[") not in self.OUT_OF_SCOPE)
 
     def classify(self, case, line):
         if line.startswith("B["):
@@ -204,19 +246,13 @@ class C14(Prop):
             return "address view has the wrong size"
         if length + 16 != total or length != x[14] * 256 + x[15]:
             return "length()/len() disagree with each other or with the length field"
-        if b["empty"] != "0":
-            return "is_empty() on an accepted header"
         if fam != x[13] >> 4:
             return "address_family() is not the family nibble on the wire"
         if int(b["alen"]) != size or int(b["u16"]) != size or b["aempty"] != ("1" if fam == 0 else "0"):
             return "Addresses::len / is_empty / u16::from(family) wrong"
-        if int(b["vc"]) != x[12] or int(b["fp"]) != x[13]:
-            return "version|command or protocol|family do not reproduce the control bytes"
-        want_disp = "[13, 10, 13, 10, 0, 13, 10, 81, 85, 73, 84, 10] %#X %#X (%d bytes)" % (x[12], x[13], length)
-        if un(b["disp"]) != want_disp.replace("0X", "0x").encode():
-            return "Display prints %r, expected %r" % (un(b["disp"]), want_disp)
-        if int(b["tl"]) != (len(tb) if tb is not None else int(b["tl"])) % 65536 or b["te"] != ("1" if b["tb"] == "-" else "0"):
-            return "TypeLengthValues::len / is_empty wrong"
+        extra_msg = self.beyond(b, x, length, tb, un)
+        if extra_msg:
+            return extra_msg
         # fields are the big-endian decoding of the address view
         hdr = sp.get("OK")
         decoded = spec[0].split(" ")[-1]
@@ -226,6 +262,27 @@ class C14(Prop):
                                        ab[2 * n] * 256 + ab[2 * n + 1], ab[2 * n + 2] * 256 + ab[2 * n + 3])
             if decoded != want:
                 return "decoded addresses are not the big-endian decoding of the address view"
+        return None
+
+
+class XV2(C14):
+    """internal: every observation of `views2` (incl. Display, the BitOr impls, TypeLengthValues::len / is_empty,
+    Header::is_empty, which no property speaks about) against the model and against what the source says"""
+    id = "XV2"
+
+    def project(self, case, line):
+        return line.split(" | ")[0]
+
+    def beyond(self, b, x, length, tb, un):
+        if b["empty"] != "0":
+            return "is_empty() on an accepted header"
+        if int(b["vc"]) != x[12] or int(b["fp"]) != x[13]:
+            return "version|command or protocol|family do not reproduce the control bytes"
+        want_disp = "[13, 10, 13, 10, 0, 13, 10, 81, 85, 73, 84, 10] %#X %#X (%d bytes)" % (x[12], x[13], length)
+        if un(b["disp"]) != want_disp.replace("0X", "0x").encode():
+            return "Display prints %r, expected %r" % (un(b["disp"]), want_disp)
+        if int(b["tl"]) != (len(tb) if tb is not None else int(b["tl"])) % 65536 or b["te"] != ("1" if b["tb"] == "-" else "0"):
+            return "TypeLengthValues::len / is_empty wrong"
         return None
 
 
@@ -747,7 +804,7 @@ class C05(Prop):
 
 class C06(Prop):
     id = "C06"
-    projection_name = "full (tag, result and flags of HeaderResult::parse)"
+    projection_name = "full (tag, result and flags of HeaderResult::parse; for v1 results flagged incomplete the class, not the variant)"
     streams = v1gen.V1_STREAMS + (v2gen.signature, v2gen.valid_headers, v2gen.truncations, v2gen.control_v2, v2gen.control_space)
 
     def groups(self, stream, e, meta):
@@ -766,6 +823,9 @@ class C06(Prop):
                 total = 65536 * (1 + sel % 2) + d + (16 if sel % 3 else 0)
                 x = expr(b, "fill:%d:%02x" % (total - len(b), len(b) % 251))
                 yield ("auto", ["auto " + x, "v2 " + x, "v1b " + x])
+
+    def project(self, case, line):
+        return norm_v1_inc(case, line)
 
     def classify(self, case, line):
         return case.split(" ")[0] + " " + line.split(" ")[0] + " " + cls3(line)
@@ -800,6 +860,9 @@ class C12(Prop):
             yield ("v1:" + meta["elem"], cases)
         else:
             yield ("v2", ["v2 " + e, "auto " + e])
+
+    def project(self, case, line):
+        return norm_v1_inc(case, line)
 
     def oracle(self, tag, cases, impl, spec, meta):
         if "PANIC" in impl:
@@ -863,14 +926,18 @@ class C12(Prop):
 
 class C15(Prop):
     id = "C15"
-    projection_name = "views (protocol(), addresses_str(), to_string() of the borrowed and the owned header)"
+    projection_name = "views (protocol(), addresses_str(), to_string() of the parsed header)"
     streams = (v1gen.corpus, v1gen.valid, v1gen.slot_substitution, v1gen.length_boundary, v1gen.token_enum)
 
     def groups(self, stream, e, meta):
         yield ("views", ["views1 " + e, "v1b " + e])
 
     def project(self, case, line):
-        return line.split(" | ")[0]
+        # the borrowed header's views; what the owned copy shows is C16's business
+        if case.startswith("v1b "):
+            return acc(line)
+        m = re.match(r"(B\[.*?\]) O\[", line)
+        return m.group(1) if m else line.split(" | ")[0]
 
     def classify(self, case, line):
         if line.startswith("B["):
@@ -885,8 +952,6 @@ class C15(Prop):
             return None if not parsed.startswith("OK") else "views unavailable for an accepted header"
         m = re.match(r"B\[(.*)\] O\[(.*)\] \| (.*)$", line)
         b, o, extra = kv(m.group(1)), kv(m.group(2)), kv(m.group(3))
-        if b != o or extra != {"eq": "1", "clobber": "1"}:
-            return "owned copy differs from the borrowed header: %s" % line[-60:]
         text = hexs_head(strip_flags(parsed).split(" ")[1])
         un = lambda h: b"" if h == "-" else bytes.fromhex(h)
         proto, aproto, astr, s_ = un(b["proto"]), un(b["aproto"]), un(b["astr"]), un(b["str"])
@@ -923,7 +988,13 @@ class C16(Prop):
         yield ("own1", ["views1 " + e])
 
     def project(self, case, line):
-        return line.split(" | ")[0]
+        if case.startswith("views"):
+            # what C16 says about owned copies: same views as the original (the model's copies are the identity,
+            # so it prints identical B[..] and O[..]); the values of the views themselves belong to C14 / C15
+            head = line.split(" | ")[0]
+            m = re.match(r"B\[(.*)\] O\[(.*)\]$", head)
+            return ("OK same-views=%d" % (m.group(1) == m.group(2))) if m else head
+        return norm_v1_inc(case, line.split(" | ")[0])
 
     def oracle(self, tag, cases, impl, spec, meta):
         if "PANIC" in impl:
@@ -1121,8 +1192,13 @@ class C19(Prop):
     trusted_extra = ("the theorems of Props/C19.v are reflexivity facts about Model/Ctor.v; the property is decided by the tie "
                      "(field-by-field comparison with the real constructors on pairwise different components)",)
 
+    IN_SCOPE = ("ip4new", "ip6new", "unix", "pair")
+
     def groups(self, stream, e, meta):
-        yield ("ctor", ["ctor %s %s" % e])
+        # Type codes, TypeLengthValue::new / From / to_owned, the BitOr impls, Addresses::default and Header::new are
+        # exercised by the same stream but are not what C19 states: they are compared in the internal run XCTOR only
+        if (e[0] in self.IN_SCOPE) == (self.id == "C19"):
+            yield ("ctor", ["ctor %s %s" % e])
 
     def classify(self, case, line):
         return case.split(" ")[1] + " " + re.sub(r"=[^ ]*", "", line)[:30] + (" mixed" if "V1=U" in line and case.split(" ")[1] == "pair" else "")
@@ -1171,6 +1247,11 @@ class C19(Prop):
             if not line.endswith("from_eq=1 owned_eq=1") or not line.startswith("K=%s V=%s " % (f[0], f[1])):
                 return "TypeLengthValue::new / From / to_owned altered kind or value"
         return None
+
+
+class XCTOR(C19):
+    """internal: the remaining constructor-like functions (no property of their own) against the model"""
+    id = "XCTOR"
 
 
 class C03(Prop):
@@ -1280,7 +1361,7 @@ class XSTD(Prop):
         return iter(())
 
 
-REGISTRY = {c.id: c for c in (XV1(), XC01(), XSTD(), C01(), C03(), C04(), C05(), C06(), C08(), C12(), C15(), C16(), C18(), C19(), C02(), C07(), C09(), C10(), C11(), C13(), C14(), C17(), C20())}
+REGISTRY = {c.id: c for c in (XV1(), XC01(), XSTD(), XV2(), XCTOR(), XTLV(), C01(), C03(), C04(), C05(), C06(), C08(), C12(), C15(), C16(), C18(), C19(), C02(), C07(), C09(), C10(), C11(), C13(), C14(), C17(), C20())}
 
 
 def get(prop):
